@@ -36,9 +36,12 @@ func jwks(keys []KeyEntry) []jose.JSONWebKey {
 type staticKeySet struct {
 	keys  []jose.JSONWebKey
 	multi bool // verify with VerifyMulti: "exactly one signature" is then enforced by the library's CheckSignature alone
+	y     *yielder // concurrent sub-check: the lookup yields (nil: not)
 }
 
 func (s *staticKeySet) VerifySignature(ctx context.Context, jws *jose.JSONWebSignature) ([]byte, error) {
+	s.y.yield()
+	defer s.y.yield()
 	kid, alg := oidc.GetKeyIDAndAlg(jws)
 	key, err := oidc.FindMatchingKey(kid, oidc.KeyUseSignature, alg, s.keys...)
 	if err != nil {
@@ -258,7 +261,7 @@ func newInstance(c Case) *instance {
 			accessV = func() *op.AccessTokenVerifier { return av }
 			hintV = func() *op.IDTokenHintVerifier { return hv }
 		} else {
-			sut, set := buildProviderFor(st, c, "provider")
+			sut, set := buildProviderFor(st, c, "provider", nil)
 			p := sut.Provider
 			ctx = op.ContextWithIssuer(ctx, issuer)
 			accessV = func() *op.AccessTokenVerifier { return p.AccessTokenVerifier(ctx) } // as the handlers obtain it, per request
@@ -348,7 +351,7 @@ func newInstance(c Case) *instance {
 	case kHintEnd:
 		// the end_session endpoint believes the subject of the hint: it ends that user's session
 		st := newStore(c)
-		sut, setKeys := buildProviderFor(st, c, c.Router)
+		sut, setKeys := buildProviderFor(st, c, c.Router, nil)
 		ag := vkit.NewAgent(sut)
 		return &instance{
 			setKeys: setKeys,
@@ -374,7 +377,7 @@ func newInstance(c Case) *instance {
 
 	case kReqHTTP, kHintHTTP:
 		st := newStore(c)
-		sut, setKeys := buildProviderFor(st, c, c.Router)
+		sut, setKeys := buildProviderFor(st, c, c.Router, nil)
 		ag := vkit.NewAgent(sut)
 		return &instance{
 			setKeys: setKeys,
@@ -427,8 +430,12 @@ func newInstance(c Case) *instance {
 	return nil
 }
 
-func buildProvider(st *vkit.Store, router string) *vkit.SUT {
-	sut, err := vkit.Build(vkit.DefaultProviderSpec(router), st)
+func buildProvider(st *vkit.Store, router string, y *yielder) *vkit.SUT {
+	spec := vkit.DefaultProviderSpec(router)
+	if y != nil {
+		spec.WrapStorage = y.wrap
+	}
+	sut, err := vkit.Build(spec, st)
 	if err != nil {
 		panic("harness: build provider: " + err.Error())
 	}
@@ -439,8 +446,9 @@ func buildProvider(st *vkit.Store, router string) *vkit.SUT {
 // op.NewProvider with exactly the verification options the case names (key set per verifier, allowed algorithms per
 // verifier; none of them when the case names none), everything else as vkit.Build does it. The returned function changes the
 // key set `target` in force: what the storage publishes, or the application's key set object handed to the option.
-func buildProviderFor(st *vkit.Store, c Case, router string) (*vkit.SUT, func(target string, keys, keys2 []KeyEntry)) {
-	sut := buildProvider(st, router) // paths, host, spec (and the provider of the fixed option set)
+// y (concurrent sub-check only, else nil): the key lookups of the storage and of the application key sets yield.
+func buildProviderFor(st *vkit.Store, c Case, router string, y *yielder) (*vkit.SUT, func(target string, keys, keys2 []KeyEntry)) {
+	sut := buildProvider(st, router, y) // paths, host, spec (and the provider of the fixed option set)
 	toStorage := func(keys, keys2 []KeyEntry) { storeKeys(st, c.Kind, keys, keys2) }
 	if c.Prov == nil || !isProv(c.Kind) {
 		return sut, func(_ string, keys, keys2 []KeyEntry) { toStorage(keys, keys2) }
@@ -449,14 +457,14 @@ func buildProviderFor(st *vkit.Store, c Case, router string) (*vkit.SUT, func(ta
 	var aks, hks *staticKeySet
 	opts := []op.Option{op.WithLogger(vkit.DiscardLogger())}
 	if po.HasAccessKS {
-		aks = &staticKeySet{keys: jwks(po.AccessKS)}
+		aks = &staticKeySet{keys: jwks(po.AccessKS), y: y}
 		opts = append(opts, op.WithAccessTokenKeySet(aks))
 	}
 	if len(po.AccessAlgs) > 0 {
 		opts = append(opts, op.WithAccessTokenVerifierOpts(op.WithSupportedAccessTokenSigningAlgorithms(po.AccessAlgs...)))
 	}
 	if po.HasHintKS {
-		hks = &staticKeySet{keys: jwks(po.HintKS)}
+		hks = &staticKeySet{keys: jwks(po.HintKS), y: y}
 		opts = append(opts, op.WithIDTokenHintKeySet(hks))
 	}
 	if len(po.HintAlgs) > 0 {
@@ -484,7 +492,7 @@ func buildProviderFor(st *vkit.Store, c Case, router string) (*vkit.SUT, func(ta
 	for i := range cfg.CryptoKey {
 		cfg.CryptoKey[i] = byte(i*7+3) ^ spec.CryptoKey
 	}
-	p, err := op.NewProvider(cfg, st.Shaped(spec.Caps), op.StaticIssuer(spec.Issuer), opts...)
+	p, err := op.NewProvider(cfg, y.wrap(st.Shaped(spec.Caps)), op.StaticIssuer(spec.Issuer), opts...)
 	if err != nil {
 		panic("harness: build provider with options: " + err.Error())
 	}
@@ -647,6 +655,9 @@ func run(c Case) (res *vkit.Result) {
 			res.Fail("C02:panic@"+frame, "verifier panicked: %v", p)
 		}
 	}()
+	if c.Conc != nil {
+		return runConc(c)
+	}
 	if why := validCase(c); why != "" {
 		res.Grey = true
 		res.Label("invalid-case")
